@@ -3,5 +3,9 @@ from biom import Table
 M = np.ones((2, 2))
 df = Table(M, ['a', 'b'], ['w', 'x'], [{'p': 1, 'q': 2}, {'q': 3, 'p': 4}]).metadata_to_dataframe('observation')
 assert df.loc['b', 'p'] == 4 and df.loc['b', 'q'] == 3, df
-df = Table(M, ['a', 'b'], ['w', 'x'], [{'p': 1, 'q': 2}, {'p': 3}]).metadata_to_dataframe('observation')
+t = Table(M, ['a', 'b'], ['w', 'x'], [{'p': 1, 'q': 2}, {'p': 3}])
+df = t.metadata_to_dataframe('observation')
 assert df.loc['b', 'p'] == 3
+assert [dict(m) for m in t.metadata(axis='observation')] == [{'p': 1, 'q': 2}, {'p': 3}]
+df = Table(M, ['a', 'b'], ['w', 'x'], [{'tax': ['k', 'p', 'c'], 'n': 1}, {'tax': ['k'], 'n': 2}]).metadata_to_dataframe('observation')
+assert df.loc['b', 'n'] == 2 and df.loc['b', 'tax_0'] == 'k', df
